@@ -3,7 +3,8 @@ Relay.tla (A-B-C line, libp2p validator slot with unregister/register window and
 nil pass-through as named as-is deviations) checked by TLC; behaviours and the feedback table exported and
 replayed on (a) exchangeFeedbackToLibp2p / the validator functions, (b) three real libp2p hosts on loopback,
 (c) the real DaisyChainNetwork; recorded executions validated by RelayTrace.tla."""
-import json, os, random, re, subprocess
+import itertools, json, os, random, re, subprocess, threading
+from concurrent.futures import ThreadPoolExecutor
 import vlib
 
 META = {
@@ -26,13 +27,10 @@ CLASS_DEV = {("libp2p", "swap-window"): "SwapWindow", ("libp2p", "startup-window
 
 
 def _dedupe(behs):
-    seen, out = set(), []
+    seen = {}
     for b in behs:
-        k = json.dumps(b, sort_keys=True)
-        if k not in seen:
-            seen.add(k)
-            out.append(b)
-    return out
+        seen.setdefault(json.dumps(b, sort_keys=True), b)
+    return [seen[k] for k in sorted(seen)]   # TLC prints in worker order: sort for a seed-stable sample
 
 
 def run(ctx):
@@ -48,58 +46,84 @@ def run(ctx):
         return r
     ctx.tlc = timed_tlc
 
-    # ------------------------------------------------------------------ 1. TLC: mapping table
-    rm = ctx.tlc("RelayMap", "Relay_map.cfg", timeout=300)
-    table = ctx.tlc_emitted(rm)
-    if len(table) != 256:
-        raise vlib.Inconclusive("RelayMap exported %d rows, want 256" % len(table))
+    # TLC runs are independent of each other: run them on a small thread pool (JVM start dominates the
+    # small ones).  ctx.tlc derives its scratch dir name from the number of entries in the scratch dir, which is
+    # not unique under concurrency: give every tlc dir a unique suffix.  State counts are summed here, not by
+    # ctx (not thread safe).
+    pool = ThreadPoolExecutor(max_workers=4)
+    tw = 4 if quick else 8
+    states = {"distinct": 0, "generated": 0}
+    lock = threading.Lock()
+    _path, uniq = ctx.path, itertools.count()
 
-    # ------------------------------------------------------------------ 2. TLC: exhaustive
-    small = {"Kinds": '{"prevote"}', "Fbs": "{1, 2, 5}", "Msgs": '{"m1", "m2"}'}
-    big = {"Kinds": ALLK, "Fbs": ALLF, "Msgs": '{"m1", "m2"}'}
-    mid = {"Kinds": '{"ph", "prevote"}', "Fbs": "{0, 1, 2, 3, 5}", "Msgs": '{"m1", "m2"}'}
-    tlc_runs = []
+    def unique_path(*p):
+        with lock:
+            if p and p[0].startswith("tlc-"):
+                p = ("%s-u%d" % (p[0], next(uniq)),) + tuple(p[1:])
+            return _path(*p)
+    ctx.path = unique_path
 
-    def mc(name, cfg, defs, **kw):
-        r = ctx.tlc("Relay", cfg, timeout=1500, defines=defs, **kw)
-        tlc_runs.append({"config": name, "distinct": r.get("distinct"), "generated": r.get("states"), "wall_s": round(r["wall"], 1)})
-        ctx.log("TLC %s: %s distinct / %s generated in %.0fs" % (name, r.get("distinct"), r.get("states"), r["wall"]))
-        return r
+    def submit(module, cfg, count=True, **kw):
+        def job():
+            r = ctx.tlc(module, cfg, workers=tw, **kw)
+            if count and not kw.get("simulate"):
+                with lock:
+                    states["distinct"] += r.get("distinct", 0)
+                    states["generated"] += r.get("states", 0)
+            return r
+        return pool.submit(job)
 
-    base_lp = dict(small if quick else big, Transport='"libp2p"', Decs='{"ok", "undecodable"}' if quick else LP_DECS, SwapHandlers=LP_SWAPS)
-    base_dy = dict(mid if quick else big, Transport='"daisy"', Decs='{"ok"}', SwapHandlers=DY_SWAPS)
-    # the design the property asks for (no deviation): strict invariants
-    mc("libp2p design (Dev={})", "Relay_strict.cfg", dict(base_lp, Dev="{}"))
-    mc("daisy design (Dev={})", "Relay_strict.cfg", dict(base_dy, Dev="{}"))
-    # the code as it is: every unaccepted relay is one of the named deviations
-    mc("libp2p as-is", "Relay_mc.cfg", dict(base_lp, Dev=ASIS))
-    mc("daisy as-is", "Relay_mc.cfg", dict(base_dy, Dev=ASIS))
-    # ... and the as-is model does violate the strict property (the spec has not lost the defects)
-    asis_cex = {}
-    for tr, base in (() if quick else (("libp2p", base_lp), ("daisy", base_dy))):
-        r = ctx.tlc("Relay", "Relay_strict.cfg", timeout=900, allow_violation=True,
-                    defines=dict(base, Dev=ASIS, Msgs='{"m1"}', MaxSwaps=1))
-        asis_cex[tr] = bool(r["violated"])
-    if asis_cex:
-        ctx.log("as-is model violates RelayedOnlyIfAccepted in TLC: %s (counterexamples are replayed on the real code below)" % asis_cex)
-
-    # ------------------------------------------------------------------ 3. behaviours
-    behs = []
+    # ------------------------------------------------------------------ 1. mapping table and behaviours (needed by the Go part)
+    f_map = submit("RelayMap", "Relay_map.cfg", timeout=300)
     # class sweep, one message, every class, every interleaving with one swap
-    e1 = ctx.tlc("Relay", "Relay_emit.cfg", timeout=900,
-                 defines={"Transport": '"libp2p"', "Decs": LP_DECS, "SwapHandlers": '{"script", "nil"}', "Dev": ASIS_NOSTART})
-    sweep_lp = _dedupe(ctx.tlc_emitted(e1))
-    e2 = ctx.tlc("Relay", "Relay_emit.cfg", timeout=900,
-                 defines={"Transport": '"daisy"', "Decs": '{"ok"}', "SwapHandlers": '{"script", "nil", "disconnect"}', "Dev": ASIS_NOSTART})
-    sweep_dy = _dedupe(ctx.tlc_emitted(e2))
+    f_e1 = submit("Relay", "Relay_emit.cfg", timeout=900,
+                  defines={"Transport": '"libp2p"', "Decs": LP_DECS, "SwapHandlers": '{"script", "nil"}', "Dev": ASIS_NOSTART})
+    f_e2 = submit("Relay", "Relay_emit.cfg", timeout=900,
+                  defines={"Transport": '"daisy"', "Decs": '{"ok"}', "SwapHandlers": '{"script", "nil", "disconnect"}', "Dev": ASIS_NOSTART})
     # timing family: two messages, two swaps, all handlers -- simulated, seeded
     nsim = 400 if quick else 4000
     simdefs = {"Msgs": '{"m1", "m2"}', "Kinds": '{"prevote", "precommit"}', "Fbs": "{1, 2, 3}", "MaxSwaps": 2, "MaxLen": 24, "Dev": ASIS_NOSTART}
-    s1 = ctx.tlc("Relay", "Relay_emit.cfg", timeout=600, simulate="num=%d" % nsim, depth=30, extra=["-seed", str(ctx.seed)],
-                 defines=dict(simdefs, Transport='"libp2p"', Decs='{"ok", "undecodable"}', SwapHandlers=LP_SWAPS))
-    s2 = ctx.tlc("Relay", "Relay_emit.cfg", timeout=600, simulate="num=%d" % nsim, depth=30, extra=["-seed", str(ctx.seed)],
-                 defines=dict(simdefs, Transport='"daisy"', Decs='{"ok"}', SwapHandlers=DY_SWAPS))
-    sim_lp, sim_dy = _dedupe(ctx.tlc_emitted(s1)), _dedupe(ctx.tlc_emitted(s2))
+    f_s1 = submit("Relay", "Relay_emit.cfg", timeout=600, simulate="num=%d" % nsim, depth=30, extra=["-seed", str(ctx.seed)],
+                  defines=dict(simdefs, Transport='"libp2p"', Decs='{"ok", "undecodable"}', SwapHandlers=LP_SWAPS))
+    f_s2 = submit("Relay", "Relay_emit.cfg", timeout=600, simulate="num=%d" % nsim, depth=30, extra=["-seed", str(ctx.seed)],
+                  defines=dict(simdefs, Transport='"daisy"', Decs='{"ok"}', SwapHandlers=DY_SWAPS))
+
+    # ------------------------------------------------------------------ 2. TLC exhaustive (joined before the verdict, runs while the Go part runs)
+    small = {"Kinds": '{"prevote"}', "Fbs": "{1, 2, 5}", "Msgs": '{"m1", "m2"}'}
+    big = {"Kinds": ALLK, "Fbs": ALLF, "Msgs": '{"m1", "m2"}'}
+    mid = {"Kinds": '{"ph", "prevote"}', "Fbs": "{0, 1, 2, 3, 5}", "Msgs": '{"m1", "m2"}'}
+    base_lp = dict(small if quick else big, Transport='"libp2p"', Decs='{"ok", "undecodable"}' if quick else LP_DECS, SwapHandlers=LP_SWAPS)
+    base_dy = dict(mid if quick else big, Transport='"daisy"', Decs='{"ok"}', SwapHandlers=DY_SWAPS)
+    mc_jobs = [
+        # the design the property asks for (no deviation): strict invariants
+        ("libp2p design (Dev={})", submit("Relay", "Relay_strict.cfg", timeout=1500, defines=dict(base_lp, Dev="{}"))),
+        ("daisy design (Dev={})", submit("Relay", "Relay_strict.cfg", timeout=1500, defines=dict(base_dy, Dev="{}"))),
+        # the code as it is: every unaccepted relay is one of the named deviations
+        ("libp2p as-is", submit("Relay", "Relay_mc.cfg", timeout=1500, defines=dict(base_lp, Dev=ASIS))),
+        ("daisy as-is", submit("Relay", "Relay_mc.cfg", timeout=1500, defines=dict(base_dy, Dev=ASIS))),
+    ]
+    # ... and (thorough) the as-is model does violate the strict property: the spec has not lost the defects
+    cex_jobs = []
+    for tr, base in (() if quick else (("libp2p", base_lp), ("daisy", base_dy))):
+        cex_jobs.append((tr, submit("Relay", "Relay_strict.cfg", count=False, timeout=900, allow_violation=True,
+                                    defines=dict(base, Dev=ASIS, Msgs='{"m1"}', MaxSwaps=1))))
+    tlc_runs, asis_cex = [], {}
+
+    def join_mc():
+        for name, f in mc_jobs:
+            r = f.result()
+            tlc_runs.append({"config": name, "distinct": r.get("distinct"), "generated": r.get("states"), "wall_s": round(r["wall"], 1)})
+            ctx.log("TLC %s: %s distinct / %s generated in %.0fs" % (name, r.get("distinct"), r.get("states"), r["wall"]))
+        for tr, f in cex_jobs:
+            asis_cex[tr] = bool(f.result()["violated"])
+        if asis_cex:
+            ctx.log("as-is model violates RelayedOnlyIfAccepted in TLC: %s (such counterexamples are what the Go part replays)" % asis_cex)
+
+    table = ctx.tlc_emitted(f_map.result())
+    if len(table) != 256:
+        raise vlib.Inconclusive("RelayMap exported %d rows, want 256" % len(table))
+    sweep_lp, sweep_dy = _dedupe(ctx.tlc_emitted(f_e1.result())), _dedupe(ctx.tlc_emitted(f_e2.result()))
+    sim_lp, sim_dy = _dedupe(ctx.tlc_emitted(f_s1.result())), _dedupe(ctx.tlc_emitted(f_s2.result()))
     ctx.log("behaviours: libp2p sweep %d + sim %d, daisy sweep %d + sim %d" % (len(sweep_lp), len(sim_lp), len(sweep_dy), len(sim_dy)))
     if len(sweep_lp) < 100 or len(sweep_dy) < 50 or len(sim_lp) < 20 or len(sim_dy) < 20:
         raise vlib.Inconclusive("behaviour export too small")
@@ -206,6 +230,9 @@ def run(ctx):
     if gate and not net.get("gate"):
         problems.append("verifGate present in the package but the gate harness was not compiled in")
 
+    join_mc()
+    pool.shutdown(wait=True)
+
     # ------------------------------------------------------------------ 6. code -> spec: trace validation
     tv = 0
     nevents = 0
@@ -263,6 +290,7 @@ def run(ctx):
     ]
     evaluations = mp["map_rows"] + mp["validator_pairs"] + dy["map_rows"] + net["messages"] + dy["messages"]
     cov = {
+        "states": states["distinct"] + (nevents + 1 if tv else 0), "transitions": states["generated"] + (nevents + 1 if tv else 0),
         "tlc_runs": tlc_runs, "asis_model_violates_strict_property": asis_cex,
         "behaviours_replayed": {"libp2p": net.get("replayed"), "daisy": dy.get("replayed"), "libp2p_needing_gate_skipped": net.get("needs_gate")},
         "evaluations": evaluations,
